@@ -18,6 +18,8 @@
     C08-F3  signature: a BOOLEAN sort key; neutraliser: the statement without the boolean keys is right under the same limit
     C08-F4  signature: a sort input of more than 8192 rows (a run longer than the merge's read buffer): panic or wrong rows
     C08-F5  signature: INNER join on a DATE / BOOLEAN key; the limited run returns no row at all (keys read as NULL) — exact mirror
+    C08-F6  signature: GROUP BY over a key holding NULLs (the aggregation path chosen under the limit groups NULL keys differently: C21-F2/F4);
+            neutraliser: the statement restricted to rows without NULL keys is right under the same limit
 -/
 import Driver.SqlCore
 open Lean IQE IQE.Spec Driver.SqlJson Driver.SQL
@@ -115,7 +117,16 @@ def handler : Driver.Handler := fun cj i => do
                   else if stratum == "sort_f3" && sigF3 && nOk then some "C08-F3"
                   else none
               | none =>
-                if kind == "join" && stratum == "join_f5" && t.isEmpty && !b.isEmpty then some "C08-F5" else none
+                if kind == "join" && stratum == "join_f5" && t.isEmpty && !b.isEmpty then some "C08-F5"
+                else if kind == "agg" && stratum == "agg_nullkeys" then
+                  -- C08-F6: signature = a group key holds NULLs; neutraliser = the statement over the rows without NULL keys is right under the same limit
+                  let nplan : Option Query := match cj.getObjVal? "neutral_plan" with
+                    | .ok pj => (queryOfJson pj).toOption
+                    | .error _ => none
+                  match nplan, neutral.find? (fun r => r.1 == cfg) with
+                  | some np, some (_, .ok nt) => if acceptableB c np nt then some "C08-F6" else none
+                  | _, _ => none
+                else none
             (cfg, "different", some s!"answer under {cfg} differs from the unlimited answer: {diffSummary t b}", attr)
       let fails := judged.filter (fun j => j.2.2.1.isSome)
       let tags := baseTags ++ judged.map (fun j => s!"lim:{j.2.1}") ++ ["base:right"]
